@@ -303,14 +303,9 @@ static const char* branch_class(cmplx_t z) {
     return nullptr;
 }
 
-// acceptable principal arguments: atan2 conventions; a negative zero is also accepted as a plain zero
-// (angle(0) in {0, atan2}; negative real axis with im = -0 in {pi, -pi})
-static std::vector<ld> angle_refs(cmplx_t z) {
-    std::vector<ld> r = {atan2l((ld)z.im, (ld)z.re)};
-    if (z.re == 0 && z.im == 0) r.push_back(0);
-    if (z.re < 0 && z.im == 0 && std::signbit(z.im)) r.push_back(PI_L);
-    return r;
-}
+// principal argument with the atan2 conventions for signed zeros (the statement names signed zeros): angle(-a, -0) = -pi,
+// angle(-a, +0) = +pi, angle(+a, -0) = -0, angle(-0, +0) = +pi, angle(-0, -0) = -pi, angle(+0, -0) = -0, angle(+0, +0) = +0
+static std::vector<ld> angle_refs(cmplx_t z) { return {atan2l((ld)z.im, (ld)z.re)}; }
 
 // returns true when ok; otherwise fills detail flags
 static bool angle_ok(Ctx& ctx, cmplx_t z, double got, bool regular, P& det, std::string& exp) {
@@ -318,7 +313,7 @@ static bool angle_ok(Ctx& ctx, cmplx_t z, double got, bool regular, P& det, std:
     double best = INFINITY;
     for (ld r : refs) {
         // scale: pi for the absolute accuracy of the quadrant correction is NOT granted; the statement asks for the result's scale
-        const double u = (r == 0) ? ((got == 0) ? 0.0 : INFINITY) : units_r(got, r);
+        const double u = (r == 0) ? ((got == 0 && std::signbit(got) == std::signbit((double)r)) ? 0.0 : INFINITY) : units_r(got, r);
         best = std::min(best, u);
     }
     if (regular) ctx.worst("angle err/(eps*|ref|) regular points", std::isfinite(best) ? best : 1e300);
@@ -523,8 +518,7 @@ static bool rpow_domain(double x, double p, ld& ref) {
     return fabsl(ref) <= 1e300L;
 }
 
-// complex base: acceptable values of z^p = exp(p Log z) (principal; 0^p = 0 for p > 0; im = -0 on the negative real
-// axis is also accepted as +0).  cond = 1 + |p| (1 + |arg z|): |z| and arg z carry one rounding each before being
+// complex base: z^p = exp(p Log z) (principal with the atan2 conventions for signed zeros; 0^p = 0 for p > 0).  cond = 1 + |p| (1 + |arg z|): |z| and arg z carry one rounding each before being
 // multiplied by p.
 static bool cpow_domain(cmplx_t z, double p, std::vector<cld>& refs, double& cond) {
     refs.clear();
@@ -537,8 +531,7 @@ static bool cpow_domain(cmplx_t z, double p, std::vector<cld>& refs, double& con
     const ld r = powl(hypotl((ld)z.re, (ld)z.im), (ld)p);
     if (!(r <= 1e300L)) return false;
     const ld th = atan2l((ld)z.im, (ld)z.re);
-    refs.push_back(r * cis(th * (ld)p));
-    if (z.re < 0 && z.im == 0 && std::signbit(z.im)) refs.push_back(r * cis(-th * (ld)p));
+    refs.push_back(r * cis(th * (ld)p));   // th follows atan2: -pi on the lower edge of the cut (im = -0), +pi on the upper edge
     cond = 1 + std::fabs(p) * (1 + (double)fabsl(th));
     return true;
 }
